@@ -51,6 +51,12 @@ pub fn vec_resize_zeroed(v: &mut Vec<u8>, n: usize, avail: Ghost<nat>)
     requires n <= avail@ + READ_BYTES_CHUNK,      // [C04.alloc.bounded-by-input]
     ensures final(v)@.len() == n, forall|i: int| 0 <= i < n && i < old(v)@.len() ==> final(v)@[i] == old(v)@[i],
 { unimplemented!() }
+/// `v.reserve(n)`: capacity for n more octets is allocated NOW, whether they ever arrive or not -- the same resource contract
+#[verifier::external_body]
+pub fn vec_reserve(v: &mut Vec<u8>, n: usize, avail: Ghost<nat>)
+    requires n <= avail@ + READ_BYTES_CHUNK,      // [C04.alloc.bounded-by-input] [C15.alloc.bounded-by-input] memory is set aside in proportion to the octets the input really holds (plus one chunk), never to a length field the peer declared
+    ensures final(v)@ == old(v)@,
+{ unimplemented!() }
 #[verifier::external_body]
 pub fn vec_drain_front(v: &mut Vec<u8>, l: usize)
     requires l <= old(v)@.len(),
@@ -298,6 +304,7 @@ impl IoReader {
 //@@ qmark
 //@@ subst `self.buf.resize(len, 0)` => `{ let ghost av = self.buf@.len() + self.reader.rest@.len(); vec_resize_zeroed(&mut self.buf, len, Ghost(av)) }` rule=optional-R9
 //@@ subst `self.reader.read_exact(&mut self.buf[l..])` => `self.reader.read_exact_tail(&mut self.buf, l)` rule=optional-R9
+//@@ subst `self.buf.reserve(__E1)` => `{ let ghost av = self.reader.rest@.len(); vec_reserve(&mut self.buf, __E1, Ghost(av)) }` rule=optional-R9
 //@@ subst `io::Read::take(&mut self.reader,` => `take_limit(` rule=optional-R9
 //@@ subst `io::Read::read_to_end(&mut limited, &mut self.buf)` => `self.reader.take_read_to_end(limited, &mut self.buf)` rule=optional-R9
 //@@ subst `io::Error::new( io::ErrorKind::UnexpectedEof, "failed to fill whole buffer", )` => `eof_error()` rule=optional-R9
